@@ -730,6 +730,9 @@ package mqtt
 //@ pred rdinv(c): cfglens(c) && writable(c) && sigfull(c) && c.connSem != nil && cap(c.connSem) == 1 && c.connSem != c.writeSem && (closed(c.connSem) ==> len(c.connSem) == 0) && c.persistence != nil && c.perPacketID != nil && c.pingAck != nil && !closed(c.pingAck) && cap(c.pingAck) == 1 && c.atLeastOnce.queue != nil && c.exactlyOnce.queue != nil && c.atLeastOnce.queue != c.exactlyOnce.queue && c.pingAck != c.atLeastOnce.queue && c.pingAck != c.exactlyOnce.queue && c.atLeastOnce.seqSem != nil && cap(c.atLeastOnce.seqSem) == 1 && c.exactlyOnce.seqSem != nil && cap(c.exactlyOnce.seqSem) == 1 && c.atLeastOnce.seqSem != c.exactlyOnce.seqSem && !closed(c.atLeastOnce.seqSem) && !closed(c.exactlyOnce.seqSem) && wrap64(c.Received - c.Completed) <= len(c.exactlyOnce.queue) && cap(c.exactlyOnce.queue) <= 16384 && (len(c.pendingAck) == 0 || len(c.pendingAck) == 4) && (c.bufr != nil ==> rx_bufref(c.bufr) > 0 && allocated(rx_bufref(c.bufr)) && rx_bufref(c.bufr) != ref(c.pendingAck) && rx_size(c.bufr) == readBufSize) && (ref(c.peek) == 0 || (c.bufr != nil && ref(c.peek) == rx_bufref(c.bufr))) && (c.bigMessage != nil ==> c.bigMessage.Size >= 0) && (c.bufr == nil ==> c.bigMessage == nil && c.peek == nil) && (c.bufr != nil ==> len(c.peek) <= rx_size(c.bufr))
 //@ pred rdmaps(c): forall(k, k >= 32768 && k < 65536 && st_has(c.persistence, k) ==> st_len(c.persistence, k) >= 2) && (st_has(c.persistence, 0) ==> st_len(c.persistence, 0) <= 65535)
 //@ func mqtt.(*Client).readSlices -> message, topic, err
+// only the retransmission of a message already taken is skipped: every other failure of onPUBLISH ends the
+// connection, and that one does not
+//@ at[C13,C04] call toOffline#4: assert err != errDupe
 //@ requires[C10] rdr(c)
 //@ stable writeSem, seqSem
 //@ requires rdinv(c) && rdmaps(c) && (c.readConn == nil) == (c.bufr == nil)
